@@ -110,6 +110,38 @@ pub fn u_term(f: &F, min_components: usize, thorough: bool) -> Vec<LTerm> {
     items.push(atom("", "b1"));
     items.push(atom(f.e.atom.prefix_operator, "a"));
     apply_all(f, &items, 1, if thorough { 3 } else { 2 }, &mut out);
+    // nested variety: a multi-component compound / set of every kind inside every kind, contents
+    // ranging over all pairs and triples of the pool
+    {
+        let pool = pool(f);
+        let mut contents: Vec<Vec<LTerm>> = vec![];
+        for i in 0..pool.len() {
+            for j in (i + 1)..pool.len() {
+                contents.push(vec![pool[i].clone(), pool[j].clone()]);
+                for k in (j + 1)..pool.len() {
+                    contents.push(vec![pool[i].clone(), pool[j].clone(), pool[k].clone()]);
+                }
+            }
+        }
+        let cb = &f.e.compound;
+        let mk = |kind: usize, terms: Vec<LTerm>| -> LTerm {
+            let conns = f.connecters();
+            if kind < conns.len() {
+                LTerm::Compound { connecter: conns[kind].to_string(), terms }
+            } else if kind == conns.len() {
+                LTerm::Set { left_bracket: cb.brackets_set_extension.0.to_string(), terms, right_bracket: cb.brackets_set_extension.1.to_string() }
+            } else {
+                LTerm::Set { left_bracket: cb.brackets_set_intension.0.to_string(), terms, right_bracket: cb.brackets_set_intension.1.to_string() }
+            }
+        };
+        let kinds = f.connecters().len() + 2;
+        for (n, c) in contents.iter().enumerate() {
+            for inner in 0..kinds {
+                let outer = (n + inner) % kinds;
+                out.push(mk(outer, vec![mk(inner, c.clone()), pool[n % pool.len()].clone()]));
+            }
+        }
+    }
     // wide: 9 and 17 components
     for n in [4usize, 5, 6, 7, 8, 9, 16, 17, 33] {
         let elems: Vec<LTerm> = (0..n).map(|i| atom(if i % 4 == 3 { f.e.atom.prefix_variable_query } else { "" }, &format!("w{i}"))).collect();
